@@ -67,8 +67,12 @@ impl Model for UF {
                     "v2" => RV::Integer(2),
                     _ => RV::Object(HashMap::new()),
                 };
-                self.f.set(k, v);
-                true
+                if l["via"].as_str() == Some("nested") {
+                    self.f.set_nested(k, v).is_ok()
+                } else {
+                    self.f.set(k, v);
+                    true
+                }
             }
             "setnested" => self.f.set_nested(&format!("{}.f", k), RV::Integer(l["x"].as_i64().unwrap())).is_ok(),
             "remove" => {
